@@ -7,14 +7,24 @@
    lexes to exactly those tokens, then eof.  Definitions and proofs (this file belongs to the proof side). *)
 From Coq Require Import List NArith Bool String Arith Lia.
 From Verif Require Import common.Sexp sem.JV sem.Syntax c09.GrammarTypes gen.GenGrammar c09.Lexer c09.LexProofs c09.Run
-  c09.RespaceProofs c09.FullAst c09.Printer.
+  c09.RespaceProofs c09.FullAst c09.Printer c09.StrLex.
 Import ListNotations.
 Local Open Scope nat_scope.
 Local Open Scope list_scope.
 
 Inductive kwd := KIf | KThen | KElse | KEnd | KTry | KCatch | KReduce | KForeach | KAs | KLabel | KBreak | KDef | KElif.
 Inductive ftok := FName (n : list N) | FField (n : list N) | FDot | FRec | FCh (c : N) | FOp (o : operator)
-                | FKw (k : kwd) | FVar (n : list N) | FNum (ds : list N) | FFmt (n : list N).
+                | FKw (k : kwd) | FVar (n : list N) | FNum (ds : list N) | FFmt (n : list N)
+                | FStr (body : list N)          (* a whole string literal "body" without interpolation *)
+                | FSStart                       (* the opening quote of an interpolated string *)
+                | FSPiece (body : list N)       (* literal bytes inside an interpolated string *)
+                | FSQuery                       (* \( *)
+                | FSEnd                         (* the closing quote of an interpolated string *)
+                | FDestAlt.                     (* ?// *)
+
+(* tokens that Lex produces in inString mode, and the mode Lex leaves behind *)
+Definition tmode (t : ftok) : bool := match t with FSPiece _ | FSQuery | FSEnd => true | _ => false end.
+Definition tafter (t : ftok) : bool := match t with FSStart | FSPiece _ => true | _ => false end.
 
 Definition kw_bytes (k : kwd) : list N :=
   match k with
@@ -59,13 +69,43 @@ Definition is_word (o : operator) : bool := match o with OpAnd | OpOr => true | 
 Definition punct (c : N) : bool :=
   ((c =? 40) || (c =? 41) || (c =? 91) || (c =? 93) || (c =? 63) || (c =? 59) || (c =? 58) || (c =? 123) || (c =? 125))%N.
 
+(* scanNumber of lexer.go run over a whole literal: the state it ends in, None if it would stop or reject earlier *)
+Fixpoint num_run (l : list N) (st : nstate) : option nstate :=
+  match l with
+  | [] => Some st
+  | ch :: r =>
+      if is_mantissa st then
+        if isNumber ch then num_run r st
+        else if (ch =? 46)%N then (if negb (is_lead st) then None else num_run r NFloat)
+        else if ((ch =? 101) || (ch =? 69))%N then
+          match r with
+          | c2 :: r2 => if ((c2 =? 45) || (c2 =? 43))%N then num_run r2 NExpLead else num_run r NExpLead
+          | [] => Some NExpLead
+          end
+        else None
+      else if isNumber ch then num_run r NExp else None
+  end.
+Definition run_ok (o : option nstate) : bool := match o with Some st => negb (is_explead st) | None => false end.
+Definition isdd (c : N) : bool := ((c =? 46) || ((48 <=? c) && (c <=? 57)))%N.     (* Index.writeTo's test *)
+(* a number literal as Lex accepts it: DIGIT... or .DIGIT..., optional fraction and exponent; it ends in a digit or `.` *)
+Definition num_lit (ds : list N) : bool :=
+  match ds with
+  | d0 :: r =>
+      (if isNumber d0 then run_ok (num_run r NLead)
+       else (d0 =? 46)%N && match r with d1 :: _ => isNumber d1 && run_ok (num_run r NFloat) | [] => false end)
+      && isdd (last ds 0%N)
+  | [] => false
+  end.
+
 Definition ftok_ok (t : ftok) : bool :=
   match t with
   | FName n => name_ok n && match lookup_kw n keywords with None => true | Some _ => false end
   | FField n => name_ok n
   | FVar n => name_ok n
-  | FNum ds => match ds with [] => false | _ => forallb isNumber ds end
+  | FNum ds => num_lit ds
   | FFmt n => match n with [] => false | _ => forallb (fun c => isIdent c true) n end
+  | FStr b => safeb b
+  | FSPiece b => safeb b && negb (is_nil b)
   | FCh c => punct c
   | _ => true
   end.
@@ -73,12 +113,16 @@ Definition ftok_bytes (t : ftok) : list N :=
   match t with
   | FName n => n | FField n => 46%N :: n | FDot => [46%N] | FRec => [46%N; 46%N] | FCh c => [c] | FOp o => fop_bytes o
   | FKw k => kw_bytes k | FVar n => 36%N :: n | FNum ds => ds | FFmt n => 64%N :: n
+  | FStr b => 34%N :: b ++ [34%N] | FSStart => [34%N] | FSPiece b => b | FSQuery => [92%N; 40%N] | FSEnd => [34%N]
+  | FDestAlt => [63%N; 47%N; 47%N]
   end.
 Definition ftok_kind (t : ftok) : tk :=
   match t with
   | FName _ => KTok "tokIdent" | FField _ => KTok "tokIndex" | FDot => KChar 46 | FRec => KTok "tokRecurse"
   | FCh c => KChar c | FOp o => fop_kind o
   | FKw k => KTok (kw_tok k) | FVar _ => KTok "tokVariable" | FNum _ => KTok "tokNumber" | FFmt _ => KTok "tokFormat"
+  | FStr _ | FSPiece _ => KTok "tokString" | FSStart => KTok "tokStringStart" | FSQuery => KTok "tokStringQuery"
+  | FSEnd => KTok "tokStringEnd" | FDestAlt => KTok "tokDestAltOp"
   end.
 
 (* the bytes after a token must not extend it: [nb1] is the condition on the next byte, [colon_ok] excludes the `::`
@@ -91,13 +135,83 @@ Definition nb1 (t : ftok) (d : N) : bool :=
   | FCh c => negb (c =? 63)%N || negb (d =? 47)%N
   | FOp o => negb (d =? 61)%N && negb (d =? 47)%N && (negb (is_word o) || negb (isIdent d true))
   | FNum _ => negb (isNumber d) && negb (d =? 46)%N && negb (d =? 101)%N && negb (d =? 69)%N && negb (isIdent d false)
+  | _ => true
   end.
 Definition colon_ok (f : list N) : bool :=
   match f with d :: e :: _ => negb ((d =? 58)%N && (e =? 58)%N) | _ => true end.
 Definition wordlike (t : ftok) : bool :=
   match t with FName _ | FKw _ | FVar _ => true | FOp o => is_word o | _ => false end.
+(* after the opening quote of an interpolated string: literal bytes, then \( *)
+Fixpoint interp_ahead (l : list N) : bool :=
+  match l with
+  | [] => false
+  | c :: r =>
+      if (c =? 92)%N then
+        match r with
+        | e :: r2 =>
+            if (e =? 40)%N then true
+            else if (e =? 117)%N then
+              match r2 with
+              | h1 :: h2 :: h3 :: h4 :: r6 => isHex h1 && isHex h2 && isHex h3 && isHex h4 && interp_ahead r6
+              | _ => false
+              end
+            else simple_esc e && interp_ahead r2
+        | [] => false
+        end
+      else if (c =? 34)%N then false else interp_ahead r
+  end.
+Definition piece_end (f : list N) : bool :=
+  match f with 34%N :: _ => true | 92%N :: 40%N :: _ => true | _ => false end.
 Definition nb_ok (t : ftok) (f : list N) : bool :=
-  match f with [] => true | d :: _ => nb1 t d && (negb (wordlike t) || colon_ok f) end.
+  match t with
+  | FSStart => interp_ahead f
+  | FSPiece _ => piece_end f
+  | FStr _ | FSQuery | FSEnd | FDestAlt => true
+  | _ => match f with [] => true | d :: _ => nb1 t d && (negb (wordlike t) || colon_ok f) end
+  end.
+
+Lemma interp_ahead_split : forall n f, List.length f <= n -> interp_ahead f = true ->
+  exists piece rest, f = piece ++ 92%N :: 40%N :: rest /\ safeb piece = true.
+Proof.
+  induction n as [|n IH]; intros f L H.
+  - destruct f; [discriminate H|simpl in L; lia].
+  - destruct f as [|c r]; [discriminate H|]. simpl in H. destruct (c =? 92)%N eqn:E92.
+    + apply N.eqb_eq in E92. subst c. destruct r as [|e r2]; [discriminate H|].
+      destruct (e =? 40)%N eqn:E40.
+      * apply N.eqb_eq in E40. subst e. exists [], r2. split; reflexivity.
+      * destruct (e =? 117)%N eqn:E117.
+        -- apply N.eqb_eq in E117. subst e.
+           destruct r2 as [|h1 [|h2 [|h3 [|h4 r6]]]]; try discriminate H.
+           apply andb_prop in H. destruct H as [HH H6].
+           destruct (IH r6 ltac:(simpl in L; lia) H6) as (piece & rest & E & S).
+           exists (92%N :: 117%N :: h1 :: h2 :: h3 :: h4 :: piece), rest. split; [rewrite E; reflexivity|].
+           simpl. rewrite HH, S. reflexivity.
+        -- apply andb_prop in H. destruct H as [SE H2].
+           destruct (IH r2 ltac:(simpl in L; lia) H2) as (piece & rest & E & S).
+           exists (92%N :: e :: piece), rest. split; [rewrite E; reflexivity|].
+           simpl. rewrite E117, SE, S. reflexivity.
+    + destruct (c =? 34)%N eqn:E34; [discriminate H|].
+      destruct (IH r ltac:(simpl in L; lia) H) as (piece & rest & E & S).
+      exists (c :: piece), rest. split; [rewrite E; reflexivity|]. simpl. rewrite E92, E34. exact S.
+Qed.
+
+Lemma interp_ahead_app : forall n a r, List.length a <= n -> safeb a = true -> interp_ahead (a ++ r) = interp_ahead r.
+Proof.
+  induction n as [|n IH]; intros a r L S.
+  - destruct a; [reflexivity|simpl in L; lia].
+  - destruct a as [|c a']; [reflexivity|].
+    simpl in S. cbn [app interp_ahead]. destruct (c =? 92)%N eqn:E92.
+    + destruct a' as [|e r2]; [discriminate S|]. cbn [app].
+      destruct (e =? 117)%N eqn:E117.
+      * apply N.eqb_eq in E117. subst e. change (117 =? 40)%N with false. cbv iota.
+        destruct r2 as [|h1 [|h2 [|h3 [|h4 r6]]]]; try discriminate S. cbn [app].
+        apply andb_prop in S. destruct S as [S S6]. rewrite S. cbn [andb].
+        apply IH; [simpl in L; lia|exact S6].
+      * apply andb_prop in S. destruct S as [SE S2]. destruct (simple_esc_not e SE) as [_ E40]. rewrite E40, SE.
+        cbn [andb]. apply IH; [simpl in L; lia|exact S2].
+    + destruct (c =? 34)%N eqn:E34; [discriminate S|]. apply IH; [simpl in L; lia|exact S].
+Qed.
+
 
 Definition spb (sp : bool) : list N := if sp then [32%N] else [].
 
@@ -166,15 +280,35 @@ Proof.
   apply (R 48%N 57%N); auto; lia.
 Qed.
 
-Lemma scanNumber_digits : forall dr f o, forallb isNumber dr = true -> nb_ok (FNum [48%N]) f = true ->
-  scanNumber_s (dr ++ f) o NLead = (true, mkpos (List.length dr + o) f).
+Lemma scanNumber_run : forall n l f o st st', List.length l <= n -> num_run l st = Some st' -> is_explead st' = false ->
+  nb_ok (FNum [48%N]) f = true ->
+  scanNumber_s (l ++ f) o st = (true, mkpos (List.length l + o) f).
 Proof.
-  induction dr as [|d dr IH]; intros f o H NB.
-  - simpl. destruct f as [|d r]; [reflexivity|]. simpl in NB. nb_split NB.
-    cbn [scanNumber_s is_mantissa is_lead].
-    repeat match goal with X : _ = false |- _ => rewrite X; clear X end. reflexivity.
-  - simpl in H. apply andb_prop in H. destruct H as [H1 H2].
-    cbn [app scanNumber_s is_mantissa]. rewrite H1. rewrite IH by auto. f_equal. f_equal. simpl. lia.
+  induction n as [|n IH]; intros l f o st st' L R E NB.
+  - destruct l; [|simpl in L; lia]. simpl in R. inversion R; subst st'. simpl.
+    destruct f as [|d r].
+    + destruct st; try reflexivity. discriminate E.
+    + simpl in NB. nb_split NB. cbn [scanNumber_s].
+      destruct st; cbn [is_mantissa is_lead is_explead negb];
+        repeat match goal with X : _ = false |- _ => rewrite X end; try reflexivity; discriminate E.
+  - destruct l as [|ch r].
+    + apply (IH [] f o st st'); auto. simpl. lia.
+    + cbn [app scanNumber_s]. cbn [num_run] in R.
+      destruct (is_mantissa st) eqn:M.
+      * destruct (isNumber ch) eqn:D.
+        -- rewrite (IH r f (S o) st st') by (auto; simpl in L; lia). f_equal. f_equal. simpl. lia.
+        -- destruct (ch =? 46)%N eqn:E46.
+           ++ destruct (negb (is_lead st)) eqn:NL; [discriminate R|].
+              rewrite (IH r f (S o) NFloat st') by (auto; simpl in L; lia). f_equal. f_equal. simpl. lia.
+           ++ destruct ((ch =? 101) || (ch =? 69))%N eqn:EE; [|discriminate R].
+              destruct r as [|c2 r2].
+              ** inversion R; subst st'. discriminate E.
+              ** cbn [app]. destruct ((c2 =? 45) || (c2 =? 43))%N eqn:PM.
+                 --- rewrite (IH r2 f (S (S o)) NExpLead st') by (auto; simpl in L; lia). f_equal. f_equal. simpl. lia.
+                 --- change (c2 :: r2 ++ f) with ((c2 :: r2) ++ f).
+                     rewrite (IH (c2 :: r2) f (S o) NExpLead st') by (auto; simpl in *; lia). f_equal. f_equal. simpl. lia.
+      * destruct (isNumber ch) eqn:D; [|discriminate R]. cbn [negb].
+        rewrite (IH r f (S o) NExp st') by (auto; simpl in L; lia). f_equal. f_equal. simpl. lia.
 Qed.
 
 Ltac exists_single l :=
@@ -189,19 +323,31 @@ Ltac op_case f E :=
 Lemma word_nb : forall t f, wordlike t = true -> nb_ok t f = true -> stop_ident f /\ colon_ok f = true.
 Proof.
   intros t [|d r] W NB; [split; reflexivity|].
-  unfold nb_ok in NB. rewrite W in NB. cbn [negb orb] in NB. apply andb_prop in NB. destruct NB as [A C].
+  assert (NB' : nb1 t d && colon_ok (d :: r) = true).
+  { destruct t; try discriminate W; unfold nb_ok in NB; rewrite W in NB; exact NB. }
+  apply andb_prop in NB'. destruct NB' as [A C].
   split; [|exact C]. simpl.
-  destruct t as [n|n| | |c|o|k|n|ds|n]; try discriminate W; simpl in A; try (apply negb_true_iff in A; exact A).
+  destruct t as [n|n| | |c|o|k|n|ds|n|b| |b| | |]; try discriminate W; simpl in A; try (apply negb_true_iff in A; exact A).
   destruct o; try discriminate W; simpl in A; nb_split A; assumption.
 Qed.
 
-Lemma dispatch_ftok : forall t f l off, ftok_ok t = true -> nb_ok t f = true -> linstr l = false ->
+Lemma slice_prefix : forall o (b g : list N), slice (mkpos o (b ++ g)) (mkpos (List.length b + o) g) = Some b.
+Proof.
+  intros. unfold slice. cbn [po pr].
+  replace (o <=? List.length b + o) with true by (symmetry; apply Nat.leb_le; lia).
+  replace (List.length b + o - o) with (List.length b) by lia.
+  replace (List.length b <=? List.length (b ++ g)) with true
+    by (symmetry; apply Nat.leb_le; rewrite app_length; lia).
+  simpl. rewrite firstn_app_exact. reflexivity.
+Qed.
+
+Lemma dispatch_ftok : forall t f l off, ftok_ok t = true -> nb_ok t f = true -> linstr l = false -> tmode t = false ->
   exists c tbr tok', (ftok_bytes t = c :: tbr /\ isWhite c = false /\ (c =? 35)%N = false) /\
     lex_dispatch l c (mkpos (S off) (tbr ++ f)) =
-      Some (ftok_kind t, mklexer (mkpos (List.length tbr + S off) f) tok' (ftok_kind t) false) /\
+      Some (ftok_kind t, mklexer (mkpos (List.length tbr + S off) f) tok' (ftok_kind t) (tafter t)) /\
     text_of (ftok_kind t) tok' = ftok_bytes t.
 Proof.
-  intros t f l off OK NB LI. destruct t as [n|n| | |c|o|k|n|ds|n].
+  intros t f l off OK NB LI TM. destruct t as [n|n| | |c|o|k|n|ds|n|b| |b| | |]; try discriminate TM.
   - (* identifier *)
     unfold ftok_ok in OK. apply andb_prop in OK. destruct OK as [N K].
     destruct n as [|n0 nr]; [discriminate N|]. unfold name_ok in N. apply andb_prop in N. destruct N as [N1 N2].
@@ -278,15 +424,33 @@ Proof.
     unfold fin_slice. cbn [Init.Nat.pred Nat.pred po pr].
     pose proof (slice_name 36%N (n0 :: nr) f off) as SL. cbn [app] in SL. cbn [app]. rewrite SL. unfold fin. rewrite LI.
     split; reflexivity.
-  - (* digits *)
-    unfold ftok_ok in OK. destruct ds as [|d0 dr]; [discriminate OK|].
-    cbn [forallb] in OK. apply andb_prop in OK. destruct OK as [N1 N2].
-    destruct (digit_facts d0 N1) as (I1 & W1 & H1).
-    exists d0, dr, (d0 :: dr). split; [auto|].
-    unfold lex_dispatch. cbv zeta. rewrite I1, N1.
-    unfold scanNumber. cbn [pr po]. rewrite scanNumber_digits by auto.
-    unfold fin_slice. cbn [Init.Nat.pred Nat.pred po pr].
-    rewrite slice_name. unfold fin. rewrite LI. split; reflexivity.
+  - (* number literal *)
+    cbn [ftok_ok] in OK. unfold num_lit in OK. destruct ds as [|d0 dr]; [discriminate OK|].
+    apply andb_prop in OK. destruct OK as [OK _].
+    destruct (isNumber d0) eqn:N1.
+    + destruct (digit_facts d0 N1) as (I1 & W1 & H1).
+      destruct (num_run dr NLead) as [st'|] eqn:R; [|discriminate OK]. simpl in OK. apply negb_true_iff in OK.
+      exists d0, dr, (d0 :: dr). split; [auto|].
+      unfold lex_dispatch. cbv zeta. rewrite I1, N1.
+      unfold scanNumber. cbn [pr po]. rewrite (scanNumber_run (List.length dr) dr f (S off) NLead st') by auto.
+      unfold fin_slice. cbn [Init.Nat.pred Nat.pred po pr].
+      rewrite slice_name. unfold fin. rewrite LI. split; reflexivity.
+    + apply andb_prop in OK. destruct OK as [E46 OK]. apply N.eqb_eq in E46. subst d0.
+      destruct dr as [|d1 dr1]; [discriminate OK|]. apply andb_prop in OK. destruct OK as [N2 OK].
+      destruct (num_run (d1 :: dr1) NFloat) as [st'|] eqn:R; [|discriminate OK]. simpl in OK. apply negb_true_iff in OK.
+      destruct (digit_facts d1 N2) as (I1 & _ & _).
+      exists 46%N, (d1 :: dr1), (46%N :: d1 :: dr1). split; [split; [reflexivity|split; reflexivity]|].
+      unfold lex_dispatch. cbv zeta.
+      change (isIdent 46 false) with false. change (isNumber 46) with false. change (46 =? 46)%N with true. cbv iota.
+      unfold peek. cbn [pr app].
+      assert (D46 : (d1 =? 46)%N = false).
+      { unfold isNumber in N2. apply andb_prop in N2. destruct N2 as [A _]. apply N.leb_le in A. apply N.eqb_neq. lia. }
+      rewrite D46, I1, N2.
+      unfold scanNumber. cbn [pr po]. change (d1 :: dr1 ++ f) with ((d1 :: dr1) ++ f).
+      rewrite (scanNumber_run (List.length (d1 :: dr1)) (d1 :: dr1) f (S off) NFloat st') by auto.
+      unfold fin_slice. cbn [Init.Nat.pred Nat.pred po pr].
+      pose proof (slice_name 46%N (d1 :: dr1) f off) as SL. cbn [app] in SL. cbn [app]. rewrite SL.
+      unfold fin. rewrite LI. split; reflexivity.
   - (* @format *)
     unfold ftok_ok in OK. destruct n as [|n0 nr]; [discriminate OK|].
     cbn [forallb] in OK. pose proof OK as OK2. apply andb_prop in OK. destruct OK as [N1 N2].
@@ -306,6 +470,39 @@ Proof.
     unfold fin_slice. cbn [Init.Nat.pred Nat.pred po pr].
     pose proof (slice_name 64%N (n0 :: nr) f off) as SL. cbn [app] in SL. rewrite SL. unfold fin. rewrite LI.
     split; reflexivity.
+  - (* "body" *)
+    cbn [ftok_ok] in OK.
+    exists 34%N, (b ++ [34%N]), (34%N :: b ++ [34%N]). split; [split; [reflexivity|split; reflexivity]|].
+    unfold lex_dispatch. cbv zeta.
+    change (isIdent 34 false) with false. change (isNumber 34) with false. cbv iota.
+    repeat match goal with |- context [(34 =? ?k)%N] => let v := eval vm_compute in (34 =? k)%N in change (34 =? k)%N with v end.
+    cbn [orb]. cbv iota.
+    unfold scanString. cbn [pr po Init.Nat.pred Nat.pred].
+    rewrite <- app_assoc. cbn [app].
+    rewrite (scan_skip (List.length b) b) by auto.
+    cbn [scanString_s]. change (34 =? 92)%N with false. change (34 =? 34)%N with true. cbn [negb]. cbv iota.
+    pose proof (slice_prefix off (34%N :: b ++ [34%N]) f) as SL. cbn [app List.length] in SL. rewrite <- app_assoc in SL.
+    cbn [app Nat.add] in SL.
+    replace (S (S off + List.length b)) with (S (List.length (b ++ [34%N]) + off)) by (rewrite app_length; simpl; lia).
+    rewrite SL. unfold fin. split; [|reflexivity].
+    f_equal. f_equal. f_equal. f_equal. lia.
+  - (* opening quote of an interpolated string *)
+    cbn [nb_ok] in NB. destruct (interp_ahead_split (List.length f) f (le_n _) NB) as (piece & rest & E & S). subst f.
+    exists 34%N, [], [34%N]. split; [split; [reflexivity|split; reflexivity]|].
+    unfold lex_dispatch. cbv zeta.
+    change (isIdent 34 false) with false. change (isNumber 34) with false. cbv iota.
+    repeat match goal with |- context [(34 =? ?k)%N] => let v := eval vm_compute in (34 =? k)%N in change (34 =? k)%N with v end.
+    cbn [orb]. cbv iota.
+    unfold scanString. cbn [pr po Init.Nat.pred Nat.pred app].
+    rewrite (scan_skip (List.length piece) piece) by auto.
+    cbn [scanString_s]. change (92 =? 92)%N with true. change (40 =? 117)%N with false.
+    change ((40 =? 34) || (40 =? 47) || (40 =? 92) || (40 =? 98) || (40 =? 102) || (40 =? 110) || (40 =? 114) || (40 =? 116))%N with false.
+    change (40 =? 40)%N with true. cbn [negb]. cbv iota.
+    pose proof (slice_prefix off [34%N] (piece ++ 92%N :: 40%N :: rest)) as SL. cbn [app List.length Nat.add] in SL.
+    rewrite SL. unfold fin. split; reflexivity.
+  - (* ?// *)
+    exists 63%N, [47%N; 47%N], [63%N; 47%N; 47%N]. split; [split; [reflexivity|split; reflexivity]|].
+    split; reflexivity.
 Qed.
 
 (* ---- one token ------------------------------------------------------------------------------------------ *)
@@ -313,14 +510,14 @@ Lemma next_plain : forall f o c r, isWhite c = false -> (c =? 35)%N = false ->
   next (S f) (mkpos o (c :: r)) = Some (c, false, mkpos (S o) r).
 Proof. intros f o c r W H. cbn [next pr po]. rewrite H, W. reflexivity. Qed.
 
-Lemma Lex_ftok : forall t sp f l o, ftok_ok t = true -> nb_ok t f = true ->
+Lemma Lex_ftok : forall t sp f l o, ftok_ok t = true -> nb_ok t f = true -> tmode t = false ->
   linstr l = false -> lp l = mkpos o (spb sp ++ ftok_bytes t ++ f) ->
   exists tok', Lex l = Some (ftok_kind t,
-                             mklexer (mkpos (List.length (spb sp) + List.length (ftok_bytes t) + o) f) tok' (ftok_kind t) false) /\
+                             mklexer (mkpos (List.length (spb sp) + List.length (ftok_bytes t) + o) f) tok' (ftok_kind t) (tafter t)) /\
                text_of (ftok_kind t) tok' = ftok_bytes t.
 Proof.
-  intros t sp f l o OK NB LI LP.
-  destruct (dispatch_ftok t f l (List.length (spb sp) + o) OK NB LI) as (c & tbr & tok' & (B & W & H) & D & T).
+  intros t sp f l o OK NB TM LI LP.
+  destruct (dispatch_ftok t f l (List.length (spb sp) + o) OK NB LI TM) as (c & tbr & tok' & (B & W & H) & D & T).
   exists tok'. split; [|exact T].
   unfold Lex. rewrite LP, LI. rewrite B. cbn [pr po].
   destruct sp; cbn [spb app is_nil List.length] in *.
@@ -329,11 +526,70 @@ Proof.
   - rewrite next_plain by auto. cbn [plus] in D. rewrite D. f_equal. f_equal. f_equal. f_equal. simpl. lia.
 Qed.
 
+Lemma piece_end_cases : forall f, piece_end f = true ->
+  (exists f1, f = 34%N :: f1) \/ (exists f2, f = 92%N :: 40%N :: f2).
+Proof.
+  intros [|d f1] H; [discriminate H|].
+  destruct (N.eq_dec d 34) as [->|D34]; [left; eauto|].
+  destruct (N.eq_dec d 92) as [->|D92].
+  - destruct f1 as [|e f2]; [discriminate H|].
+    destruct (N.eq_dec e 40) as [->|E40]; [right; eauto|].
+    exfalso. destruct e as [|q]; [discriminate H|].
+    repeat (destruct q as [q|q|]; try discriminate H); congruence.
+  - exfalso. destruct d as [|q]; [discriminate H|].
+    repeat (destruct q as [q|q|]; try discriminate H); congruence.
+Qed.
+
+(* a token of the inside of an interpolated string: Lex in inString mode (no white space is skipped there) *)
+Lemma Lex_instring : forall t f l o, ftok_ok t = true -> nb_ok t f = true -> tmode t = true ->
+  linstr l = true -> lp l = mkpos o (ftok_bytes t ++ f) ->
+  exists tok', Lex l = Some (ftok_kind t,
+                             mklexer (mkpos (List.length (ftok_bytes t) + o) f) tok' (ftok_kind t) (tafter t)) /\
+               text_of (ftok_kind t) tok' = ftok_bytes t.
+Proof.
+  intros t f l o OK NB TM LI LP.
+  destruct t as [n|n| | |c|o'|k|n|ds|n|b| |b| | |]; try discriminate TM.
+  - (* piece *)
+    cbn [ftok_ok] in OK. apply andb_prop in OK. destruct OK as [S NE].
+    destruct b as [|b0 br]; [discriminate NE|].
+    exists (b0 :: br). split; [|reflexivity].
+    unfold Lex. rewrite LP, LI. cbn [ftok_bytes pr po app is_nil].
+    unfold scanString. cbn [pr po].
+    change (b0 :: br ++ f) with ((b0 :: br) ++ f).
+    rewrite (scan_skip (List.length (b0 :: br)) (b0 :: br)) by auto.
+    cbn [nb_ok] in NB. unfold piece_end in NB.
+    pose proof (slice_prefix o (b0 :: br) f) as SL.
+    destruct (piece_end_cases f NB) as [(f1 & ->)|(f2 & ->)].
+    + cbn [scanString_s]. change (34 =? 92)%N with false. change (34 =? 34)%N with true.
+      cbn [negb po]. cbv iota.
+      replace (o + List.length (b0 :: br)) with (List.length (b0 :: br) + o) by lia.
+      replace (o <? List.length (b0 :: br) + o) with true by (symmetry; apply Nat.ltb_lt; simpl; lia).
+      rewrite SL. unfold fin. reflexivity.
+    + cbn [scanString_s]. change (92 =? 92)%N with true. change (40 =? 117)%N with false.
+      change ((40 =? 34) || (40 =? 47) || (40 =? 92) || (40 =? 98) || (40 =? 102) || (40 =? 110) || (40 =? 114) || (40 =? 116))%N with false.
+      change (40 =? 40)%N with true. cbn [negb po]. cbv iota.
+      replace (o + List.length (b0 :: br)) with (List.length (b0 :: br) + o) by lia.
+      replace (List.length (b0 :: br) + o =? o) with false by (symmetry; apply Nat.eqb_neq; simpl; lia).
+      rewrite SL. unfold fin. reflexivity.
+  - (* \( *)
+    exists [92%N; 40%N]. split; [|reflexivity].
+    unfold Lex. rewrite LP, LI. cbn [ftok_bytes pr po app is_nil].
+    unfold scanString. cbn [pr po scanString_s]. change (92 =? 92)%N with true. change (40 =? 117)%N with false.
+    change ((40 =? 34) || (40 =? 47) || (40 =? 92) || (40 =? 98) || (40 =? 102) || (40 =? 110) || (40 =? 114) || (40 =? 116))%N with false.
+    change (40 =? 40)%N with true. cbn [negb]. cbv iota. rewrite Nat.eqb_refl. unfold fin.
+    f_equal. f_equal. f_equal. f_equal. simpl. lia.
+  - (* closing quote *)
+    exists [34%N]. split; [|reflexivity].
+    unfold Lex. rewrite LP, LI. cbn [ftok_bytes pr po app is_nil].
+    unfold scanString. cbn [pr po scanString_s]. change (34 =? 92)%N with false. change (34 =? 34)%N with true.
+    cbn [negb]. cbv iota. rewrite Nat.ltb_irrefl. unfold fin. reflexivity.
+Qed.
+
 (* ---- a list of tokens ------------------------------------------------------------------------------------ *)
 Definition fitem := (bool * ftok)%type.          (* (preceded by one space?, token) *)
 Fixpoint frender (items : list fitem) : list N :=
   match items with [] => [] | (sp, t) :: r => spb sp ++ ftok_bytes t ++ frender r end.
-(* every token is well formed and the byte that follows it does not extend it *)
+(* every token is well formed and the bytes that follow it do not extend it *)
 Fixpoint chain (items : list fitem) : bool :=
   match items with
   | [] => true
@@ -341,98 +597,132 @@ Fixpoint chain (items : list fitem) : bool :=
   end.
 Definition fexpected (it : fitem) : tk * list N := (ftok_kind (snd it), ftok_bytes (snd it)).
 
+(* what a token does to the open-parenthesis stack of the feedback emulation (true = opened by \( ) and the mode
+   the NEXT Lex call runs in: the ')' that closes an interpolation switches the lexer back to inString *)
+Definition effect (t : ftok) (stk : list bool) : list bool * bool :=
+  match t with
+  | FSQuery => (true :: stk, false)
+  | FCh c =>
+      if (c =? 40)%N then (false :: stk, false)
+      else if (c =? 41)%N then match stk with true :: s => (s, true) | false :: s => (s, false) | [] => ([], false) end
+      else (stk, false)
+  | _ => (stk, tafter t)
+  end.
+(* every token is lexed in the mode it needs (and nothing is skipped before an inString token) *)
+Fixpoint modes (instr : bool) (stk : list bool) (items : list fitem) : bool :=
+  match items with
+  | [] => true
+  | (sp, t) :: r =>
+      Bool.eqb instr (tmode t) && (negb (tmode t) || negb sp) &&
+      modes (snd (effect t stk)) (fst (effect t stk)) r
+  end.
+
 Lemma fkind_not_end : forall t, ftok_ok t = true -> is_end (ftok_kind t) = false.
 Proof.
-  intros [n|n| | |c|o|k|n|ds|n] OK; try reflexivity.
+  intros [n|n| | |c|o|k|n|ds|n|b| |b| | |] OK; try reflexivity.
   - unfold ftok_ok, punct in OK.
     repeat (apply orb_prop in OK; destruct OK as [OK|OK]); apply N.eqb_eq in OK; subst c; reflexivity.
   - destruct o; reflexivity.
 Qed.
 
-Lemma feedback_ftok : forall t stk l, ftok_ok t = true -> Forall (fun b => b = false) stk ->
-  exists stk', feedback (ftok_kind t) stk l = (stk', l) /\ Forall (fun b => b = false) stk'.
+Lemma feedback_effect : forall t stk p tok, ftok_ok t = true ->
+  feedback (ftok_kind t) stk (mklexer p tok (ftok_kind t) (tafter t)) =
+  (fst (effect t stk), mklexer p tok (ftok_kind t) (snd (effect t stk))).
 Proof.
-  intros t stk l OK H.
-  assert (P40 : exists stk', feedback (KChar 40) stk l = (stk', l) /\ Forall (fun b => b = false) stk').
-  { exists (false :: stk). split; [reflexivity|constructor; auto]. }
-  assert (P41 : exists stk', feedback (KChar 41) stk l = (stk', l) /\ Forall (fun b => b = false) stk').
-  { destruct stk as [|b stk]; [exists []; split; [reflexivity|constructor]|].
-    inversion H; subst. exists stk. split; [reflexivity|assumption]. }
-  destruct t as [n|n| | |c|o|k|n|ds|n]; try (exists stk; split; [reflexivity|exact H]).
+  intros t stk p tok OK. destruct t as [n|n| | |c|o|k|n|ds|n|b| |b| | |]; try reflexivity.
   - unfold ftok_ok, punct in OK.
-    repeat (apply orb_prop in OK; destruct OK as [OK|OK]); apply N.eqb_eq in OK; subst c; auto;
-      (exists stk; split; [reflexivity|exact H]).
-  - exists stk. split; [destruct o; reflexivity|exact H].
-  - exists stk. split; [destruct k; reflexivity|exact H].
+    repeat (apply orb_prop in OK; destruct OK as [OK|OK]); apply N.eqb_eq in OK; subst c; try reflexivity.
+    destruct stk as [|[|] s]; reflexivity.
+  - destruct o; reflexivity.
+  - destruct k; reflexivity.
 Qed.
 
 Theorem lex_items : forall items l o stk f,
-  chain items = true -> linstr l = false -> lp l = mkpos o (frender items) -> Forall (fun b => b = false) stk ->
+  chain items = true -> modes (linstr l) stk items = true -> lp l = mkpos o (frender items) ->
   List.length items < f ->
   option_map (map proj) (lex_all f l stk) = Some (map fexpected items ++ [(KEOF, [])]).
 Proof.
-  induction items as [|[sp t] r IH]; intros l o stk f CH LI LP ST L.
+  induction items as [|[sp t] r IH]; intros l o stk f CH MO LP L.
   - destruct f; [simpl in L; lia|]. simpl in LP.
     unfold lex_all. cbn [lex_with]. unfold Lex. rewrite LP. cbn [pr is_nil]. unfold fin. cbn [is_end].
     simpl. reflexivity.
   - destruct f; [simpl in L; lia|].
     simpl in CH. apply andb_prop in CH. destruct CH as [CH CH2]. apply andb_prop in CH. destruct CH as [OK NB].
+    cbn [modes] in MO. apply andb_prop in MO. destruct MO as [MO MO2]. apply andb_prop in MO. destruct MO as [M1 M2].
+    apply Bool.eqb_prop in M1.
     simpl in LP.
-    destruct (Lex_ftok t sp (frender r) l o OK NB LI LP) as (tok' & A & T).
+    assert (LX : exists tok', Lex l = Some (ftok_kind t,
+                   mklexer (mkpos (List.length (spb sp) + List.length (ftok_bytes t) + o) (frender r)) tok' (ftok_kind t) (tafter t)) /\
+                 text_of (ftok_kind t) tok' = ftok_bytes t).
+    { destruct (tmode t) eqn:TM.
+      - destruct sp; [discriminate M2|]. cbn [spb app List.length plus] in *.
+        apply Lex_instring; auto.
+      - apply Lex_ftok; auto. }
+    destruct LX as (tok' & A & T).
     unfold lex_all. cbn [lex_with]. rewrite A. rewrite fkind_not_end by auto.
-    match goal with |- context [feedback _ stk ?LX] => destruct (feedback_ftok t stk LX OK ST) as (stk' & FB & ST'); rewrite FB end.
+    rewrite feedback_effect by auto.
     assert (L' : List.length r < f) by (simpl in L; lia).
-    match goal with |- context [lex_with _ _ f ?LX stk'] =>
-      specialize (IH LX (List.length (spb sp) + List.length (ftok_bytes t) + o) stk' f CH2 eq_refl eq_refl ST' L') end.
+    match goal with |- context [lex_with _ _ f ?LX ?ST] =>
+      specialize (IH LX (List.length (spb sp) + List.length (ftok_bytes t) + o) ST f CH2 MO2 eq_refl L') end.
     unfold lex_all in IH.
-    match goal with |- context [lex_with ?a ?b f ?LX stk'] => destruct (lex_with a b f LX stk') as [ts|] end; [|discriminate IH].
+    match goal with |- context [lex_with ?a ?b f ?LX ?ST] => destruct (lex_with a b f LX ST) as [ts|] end; [|discriminate IH].
     simpl in IH. inversion IH as [IH']. simpl. f_equal. f_equal.
     + unfold proj, fexpected. simpl. f_equal.
       unfold tok_text. simpl. rewrite <- T. unfold text_of. destruct (ftok_kind t); reflexivity.
     + exact IH'.
 Qed.
 
+Lemma ftok_bytes_nonempty : forall t, ftok_ok t = true -> 1 <= List.length (ftok_bytes t).
+Proof.
+  intros t OK. destruct t as [n|n| | |c|o|k|n|ds|n|b| |b| | |]; simpl; try lia.
+  - unfold ftok_ok in OK. apply andb_prop in OK. destruct OK as [N _]. destruct n; [discriminate N|simpl; lia].
+  - destruct o; simpl; lia.
+  - destruct k; simpl; lia.
+  - cbn [ftok_ok] in OK. destruct ds; [discriminate OK|simpl; lia].
+  - cbn [ftok_ok] in OK. apply andb_prop in OK. destruct OK as [_ NE]. destruct b; [discriminate NE|simpl; lia].
+Qed.
+
 Lemma frender_length : forall items, chain items = true -> List.length items <= List.length (frender items).
 Proof.
   induction items as [|[sp t] r IH]; intros CH; simpl; [lia|].
   simpl in CH. apply andb_prop in CH. destruct CH as [CH CH2]. apply andb_prop in CH. destruct CH as [OK _].
-  rewrite !app_length. specialize (IH CH2).
-  assert (1 <= List.length (ftok_bytes t)).
-  { destruct t as [n|n| | |c|o|k|n|ds|n]; simpl; try lia.
-    - unfold ftok_ok in OK. apply andb_prop in OK. destruct OK as [N _]. destruct n; [discriminate N|simpl; lia].
-    - destruct o; simpl; lia.
-    - destruct k; simpl; lia.
-    - unfold ftok_ok in OK. destruct ds; [discriminate OK|simpl; lia]. }
-  lia.
+  rewrite !app_length. specialize (IH CH2). pose proof (ftok_bytes_nonempty t OK). lia.
 Qed.
 
 (* lexing the bytes of a token list whose gaps are right yields exactly those tokens, then eof *)
-Theorem tokenize_items : forall items, chain items = true ->
+Theorem tokenize_items : forall items, chain items = true -> modes false [] items = true ->
   option_map (map proj) (tokenize (frender items)) = Some (map fexpected items ++ [(KEOF, [])]).
 Proof.
-  intros items CH. unfold tokenize.
-  apply (lex_items items (newLexer (frender items)) 0 [] _ CH eq_refl eq_refl (Forall_nil _)).
+  intros items CH MO. unfold tokenize.
+  apply (lex_items items (newLexer (frender items)) 0 [] _ CH MO eq_refl).
   pose proof (frender_length items CH). lia.
 Qed.
 
 (* ---- the same with ARBITRARY separators (whitespace and comments, RespaceProofs.sep) ------------------------ *)
 Definition sitem := (sep * ftok)%type.
+(* tokens lexed in the normal mode that leave the lexer in the normal mode (all but the parts of interpolated strings) *)
+Definition simple_tok (t : ftok) : bool := negb (tmode t) && negb (tafter t).
 Fixpoint srender (items : list sitem) (final : sep) : list N :=
   match items with [] => sep_bytes final | (s, t) :: r => sep_bytes s ++ ftok_bytes t ++ srender r final end.
 Fixpoint schain (items : list sitem) (final : sep) : bool :=
   match items with
   | [] => true
-  | (s, t) :: r => sep_ok s && ftok_ok t && nb_ok t (srender r final) && schain r final
+  | (s, t) :: r => sep_ok s && ftok_ok t && simple_tok t && nb_ok t (srender r final) && schain r final
   end.
 
-Lemma Lex_ftok_sep : forall t s f l o, ftok_ok t = true -> sep_ok s = true -> nb_ok t f = true ->
+Lemma simple_tok_modes : forall t, simple_tok t = true -> tmode t = false /\ tafter t = false.
+Proof. intros t H. unfold simple_tok in H. apply andb_prop in H. destruct H as [A B].
+  apply negb_true_iff in A. apply negb_true_iff in B. auto. Qed.
+
+Lemma Lex_ftok_sep : forall t s f l o, ftok_ok t = true -> simple_tok t = true -> sep_ok s = true -> nb_ok t f = true ->
   linstr l = false -> lp l = mkpos o (sep_bytes s ++ ftok_bytes t ++ f) ->
   exists tok', Lex l = Some (ftok_kind t,
                              mklexer (mkpos (List.length (sep_bytes s) + List.length (ftok_bytes t) + o) f) tok' (ftok_kind t) false) /\
                text_of (ftok_kind t) tok' = ftok_bytes t.
 Proof.
-  intros t s f l o OK SOK NB LI LP.
-  destruct (dispatch_ftok t f l (List.length (sep_bytes s) + o) OK NB LI) as (c & tbr & tok' & (B & W & H) & D & T).
+  intros t s f l o OK ST SOK NB LI LP. destruct (simple_tok_modes t ST) as [TM TA].
+  destruct (dispatch_ftok t f l (List.length (sep_bytes s) + o) OK NB LI TM) as (c & tbr & tok' & (B & W & H) & D & T).
+  rewrite TA in D.
   exists tok'. split; [|exact T].
   unfold Lex. rewrite LP, LI. rewrite B. cbn [pr po].
   replace (sep_bytes s ++ (c :: tbr) ++ f) with (sep_bytes s ++ c :: (tbr ++ f)) by reflexivity.
@@ -440,6 +730,16 @@ Proof.
   rewrite NN.
   rewrite next_skip; auto; [|rewrite app_length; simpl; lia].
   rewrite D. f_equal. f_equal. f_equal. f_equal. simpl. lia.
+Qed.
+
+Lemma effect_simple : forall t stk, ftok_ok t = true -> simple_tok t = true -> Forall (fun b => b = false) stk ->
+  snd (effect t stk) = false /\ Forall (fun b => b = false) (fst (effect t stk)).
+Proof.
+  intros t stk OK ST H. destruct t as [n|n| | |c|o|k|n|ds|n|b| |b| | |]; try discriminate ST; try (split; [reflexivity|exact H]).
+  unfold ftok_ok, punct in OK.
+  repeat (apply orb_prop in OK; destruct OK as [OK|OK]); apply N.eqb_eq in OK; subst c; try (split; [reflexivity|exact H]).
+  - split; [reflexivity|constructor; auto].
+  - destruct stk as [|b s]; [split; [reflexivity|constructor]|]. inversion H; subst. split; [reflexivity|assumption].
 Qed.
 
 Theorem lex_sitems : forall items final l o stk f,
@@ -453,16 +753,19 @@ Proof.
     unfold lex_all. cbn [lex_with]. rewrite A. cbn [is_end]. simpl. unfold proj. simpl. rewrite B. reflexivity.
   - destruct f; [simpl in L; lia|].
     simpl in CH. apply andb_prop in CH. destruct CH as [CH CH2]. apply andb_prop in CH. destruct CH as [CH NB].
-    apply andb_prop in CH. destruct CH as [SOK OK].
+    apply andb_prop in CH. destruct CH as [CH SI]. apply andb_prop in CH. destruct CH as [SOK OK].
     simpl in LP.
-    destruct (Lex_ftok_sep t s (srender r final) l o OK SOK NB LI LP) as (tok' & A & T).
+    destruct (Lex_ftok_sep t s (srender r final) l o OK SI SOK NB LI LP) as (tok' & A & T).
     unfold lex_all. cbn [lex_with]. rewrite A. rewrite fkind_not_end by auto.
-    match goal with |- context [feedback _ stk ?LX] => destruct (feedback_ftok t stk LX OK ST) as (stk' & FB & ST'); rewrite FB end.
+    destruct (simple_tok_modes t SI) as [_ TA].
+    pose proof (feedback_effect t stk (mkpos (List.length (sep_bytes s) + List.length (ftok_bytes t) + o) (srender r final)) tok' OK) as FB.
+    rewrite TA in FB. rewrite FB.
+    destruct (effect_simple t stk OK SI ST) as [E1 E2]. rewrite E1.
     assert (L' : List.length r < f) by (simpl in L; lia).
-    match goal with |- context [lex_with _ _ f ?LX stk'] =>
-      specialize (IH final LX (List.length (sep_bytes s) + List.length (ftok_bytes t) + o) stk' f CH2 FOK eq_refl eq_refl ST' L') end.
+    match goal with |- context [lex_with _ _ f ?LX ?STK] =>
+      specialize (IH final LX (List.length (sep_bytes s) + List.length (ftok_bytes t) + o) STK f CH2 FOK eq_refl eq_refl E2 L') end.
     unfold lex_all in IH.
-    match goal with |- context [lex_with ?a ?b f ?LX stk'] => destruct (lex_with a b f LX stk') as [ts|] end; [|discriminate IH].
+    match goal with |- context [lex_with ?a ?b f ?LX ?STK] => destruct (lex_with a b f LX STK) as [ts|] end; [|discriminate IH].
     simpl in IH. inversion IH as [IH']. simpl. f_equal. f_equal.
     + unfold proj. simpl. f_equal.
       unfold tok_text. simpl. rewrite <- T. unfold text_of. destruct (ftok_kind t); reflexivity.
@@ -473,15 +776,8 @@ Lemma srender_length : forall items final, schain items final = true -> List.len
 Proof.
   induction items as [|[s t] r IH]; intros final CH; simpl; [lia|].
   simpl in CH. apply andb_prop in CH. destruct CH as [CH CH2]. apply andb_prop in CH. destruct CH as [CH _].
-  apply andb_prop in CH. destruct CH as [_ OK].
-  rewrite !app_length. specialize (IH final CH2).
-  assert (1 <= List.length (ftok_bytes t)).
-  { destruct t as [n|n| | |c|o|k|n|ds|n]; simpl; try lia.
-    - unfold ftok_ok in OK. apply andb_prop in OK. destruct OK as [N _]. destruct n; [discriminate N|simpl; lia].
-    - destruct o; simpl; lia.
-    - destruct k; simpl; lia.
-    - unfold ftok_ok in OK. destruct ds; [discriminate OK|simpl; lia]. }
-  lia.
+  apply andb_prop in CH. destruct CH as [CH _]. apply andb_prop in CH. destruct CH as [_ OK].
+  rewrite !app_length. specialize (IH final CH2). pose proof (ftok_bytes_nonempty t OK). lia.
 Qed.
 
 (* whitespace and comments between the tokens of this alphabet are irrelevant to the token stream *)
